@@ -169,7 +169,7 @@ func fieldsRead(sl map[ssa.Value]bool, st *types.Struct) map[string]bool {
 // fieldCover checks that the value `sink` is computed from every field of st except the exempted ones, and from no
 // exempted one that is marked "must not" (exempt value "!...").
 func fieldCover(c *core.Ctx, key string, pos token.Pos, sink ssa.Value, st *types.Struct, exempt map[string]string) {
-	sl := core.Slice(sink)
+	sl := core.SliceShallow(sink)
 	// follow static callees that receive part of the structure (one level, same repository)
 	got := fieldsRead(sl, st)
 	for v := range sl {
@@ -177,7 +177,7 @@ func fieldCover(c *core.Ctx, key string, pos token.Pos, sink ssa.Value, st *type
 			if callee := core.StaticFn(ci); callee != nil && core.InRepo(callee) && callee.Blocks != nil {
 				for _, r := range core.Returns(callee) {
 					for _, res := range r.Results {
-						for f := range fieldsRead(core.Slice(res), st) {
+						for f := range fieldsRead(core.SliceShallow(res), st) {
 							got[f] = true
 						}
 					}
